@@ -163,7 +163,8 @@ def after(ctx, c):
             ctx.count("WellFormed:rejected")
 
 
-_P = CompilerProp(ID, gen, judge, 180, 1500, with_query=True, after=after, use_gxx=True, gxx_also=lambda c: not (c.answer or {}).get("wf", True) or not (c.answer or {}).get("unique", True))
+_P = CompilerProp(ID, gen, judge, 180, 1500, with_query=True, after=after, use_gxx=True, parse_tie=False,  # (C02 runs the parse tie itself, with the fuzz texts)
+                   gxx_also=lambda c: not (c.answer or {}).get("wf", True) or not (c.answer or {}).get("unique", True))
 search = _P.search
 
 
